@@ -26,6 +26,31 @@ fn main() {
     let (prop, tier, seed, driver, out) = (&args[1], &args[2], args[3].parse::<u64>().unwrap_or(1), &args[4], &args[5]);
     std::panic::set_hook(Box::new(|_| {}));
     let t0 = std::time::Instant::now();
+    // watchdog: an implementation call that does not return within 20 s is a hang; it is reported
+    // as a failure of the property with the input as replay (the stuck thread cannot be resumed)
+    {
+        let (prop, out, tier) = (prop.clone(), out.clone(), tier.clone());
+        std::thread::spawn(move || loop {
+            std::thread::sleep(std::time::Duration::from_millis(500));
+            let cur = core::CURRENT.lock().unwrap().clone();
+            if let Some((label, since)) = cur {
+                if since.elapsed().as_secs() >= 20 {
+                    let mut j = J::obj();
+                    let mut f = J::obj();
+                    f.set("case", J::Int(-1)).set("key", J::s("hang")).set("message", J::s("the implementation did not return within 20 s on this input")).set("op", J::s(&label));
+                    let mut smp = J::obj();
+                    smp.set("op", J::s(&label)).set("impl", J::s("(no return)"));
+                    j.set("property", J::s(&prop)).set("evaluations", J::Int(1)).set("distinct_nontrivial", J::Int(1))
+                        .set("compared_with_model", J::Int(0)).set("samples", J::Arr(vec![smp])).set("distribution", J::obj())
+                        .set("disagreements", J::Arr(vec![])).set("disagreement_count", J::Int(0))
+                        .set("oracle_failures", J::Arr(vec![f])).set("oracle_failure_count", J::Int(1)).set("tier", J::s(&tier))
+                        .set("aborted_by_watchdog", J::Bool(true));
+                    let _ = std::fs::write(&out, j.to_string());
+                    std::process::exit(0);
+                }
+            }
+        });
+    }
     let cases = match props::cases(prop, tier, seed) {
         Some(c) => c,
         None => {
@@ -33,6 +58,7 @@ fn main() {
             std::process::exit(2);
         }
     };
+    core::watch_clear();
     let gen_s = t0.elapsed().as_secs_f64();
     let mut rep = core::evaluate(prop, driver, cases);
     // correspondence broke but no oracle failure in this batch: search wider on the implementation
